@@ -16,7 +16,8 @@ things mean:
 page 1 lists F1 F2 and shows <41 42> with F1, CODE1 CODE2 with F2; page 2 lists F1 F3 and shows <42 41> with F1,
 CODE1 CODE2 with F3.  Page 2 of every document also paints an inline image; page 1 of dB also shows a 3 x 3 grid of
 identical one-glyph text boxes at pairwise equal distances, and defines and paints a form /Fm1 (object 20).  Page 2 of dB has
-an EMPTY /Resources dictionary yet says /CS0 cs, /F1 Tf and /Fm1 Do: those names are undefined there.
+an EMPTY /Resources dictionary yet says /CS0 cs, /F1 Tf and /Fm1 Do: those names are undefined there.  The two pages of dC
+share one indirect /Contents array (two streams), one inherited indirect /Resources, an indirect /Font dictionary and /Fm1.
 The tables of the model (what WinAnsi gives for 0x41/0x42, which CID H and V give for CODE1/CODE2, what
 to-unicode-Adobe-Japan1 gives for those CIDs) are constants read from the pdfminer package at run time.
 """
@@ -112,6 +113,23 @@ def objects(d):
     objs[15] = w1
     objs[16] = Stream({"N": max(CSN[d], 1)}, b"\0" * 8)
     objs[17] = {"Unused": True}
+    objs[21] = [Ref(7)]
+    objs[22] = {"F1": Ref(5)}
+    if d == "dC":
+        # SharedPages: the two pages of dC share every indirect object the interpreter walks - ONE indirect /Contents array of
+        # two streams, ONE indirect /Resources dictionary inherited from the /Pages node, an indirect /Font dictionary, and
+        # the form /Fm1; so both pages list F1 F2 F3 and show the same codes
+        objs[2]["Resources"] = Ref(17)
+        objs[17] = {"Font": Ref(22), "XObject": {"Fm1": Ref(20)}}
+        objs[22] = {"F1": Ref(5), "F2": Ref(6), "F3": Ref(18)}
+        objs[21] = [Ref(7), Ref(8)]
+        objs[3] = {"Type": Name("Page"), "Parent": Ref(2), "Contents": Ref(21)}
+        objs[4] = {"Type": Name("Page"), "Parent": Ref(2), "Contents": Ref(21)}
+        # (the inline image sits in the FIRST stream: pdfminer loses the operator after EI when the image is in a later
+        # stream of a /Contents array - deterministic, a matter for C18, kept out of this pool)
+        objs[7] = Stream({}, b"q 20 0 0 20 200 700 cm BI /W 1 /H 1 /BPC 8 /CS /G /F /AHx ID 7f> EI Q\n/CS0 cs " + col
+                         + b" BT /F1 10 Tf 1 0 0 1 50 700 Tm <4142> Tj /F2 10 Tf 1 0 0 1 50 600 Tm <" + two + b"> Tj ET")
+        objs[8] = Stream({}, b"BT /F3 10 Tf 1 0 0 1 50 500 Tm <" + two + b"> Tj ET /Fm1 Do")
     # a form without /Resources of its own (it uses the page's): one glyph with the page's /F1
     objs[20] = Stream({"Type": Name("XObject"), "Subtype": Name("Form"), "BBox": [0, 0, 300, 800]},
                       b"BT /F1 10 Tf 1 0 0 1 200 300 Tm <41> Tj ET")
